@@ -32,7 +32,8 @@ RULE = ('tables of 2-7 columns (quick: mostly 3-5) x 60-120 rows from a random c
         'modes plain / swap (half the rows are a column-permuted copy => exactly tied taus, no perfect '
         'dependence) / cyclic (all cyclic column shifts => circulant tau matrix) / small (8-14 rows => taus on a '
         'coarse lattice, many ties) / discrete (rounded => tau-b with row ties) / neardup / dup (an exactly '
-        'duplicated column) / indep; each fitted as center, direct and regular vine with truncation t in 1..d. '
+        'duplicated column) / indep / zero (Kendall tau with column 0 EXACTLY 0: x on a symmetric grid with '
+        'x**2, rows mirrored in column 0, 9-row permutation grids; the first 8 tables of every run); each fitted as center, direct and regular vine with truncation t in 1..d. '
         'A case is distinct by (type, d, t, extracted structure, first-tree tau matrix) and non-trivial when '
         'd >= 3 and the fit returned; fits that raise (perfectly dependent columns make a later '
         '`Bivariate.fit` raise ValueError) are counted as refused.  Unit stream: random and vine-shaped edge '
@@ -62,8 +63,8 @@ FIT_TIMEOUT_S = 20       # a fit takes < 1 s; only a non-terminating loop gets h
 FIT_TIMEOUT_AFTER_FIRST_S = 3
 MAX_TIMEOUTS_PER_TYPE = 2
 _TIMEOUTS = {}
-MODES = ('plain', 'swap', 'cyclic', 'small', 'discrete', 'neardup', 'dup', 'indep')
-MODE_W = (5, 5, 3, 4, 3, 2, 1, 2)
+MODES = ('plain', 'swap', 'cyclic', 'small', 'discrete', 'neardup', 'dup', 'indep', 'zero')
+MODE_W = (5, 5, 3, 4, 3, 2, 1, 2, 5)
 TYPES = ('center', 'direct', 'regular')
 
 
@@ -78,6 +79,27 @@ def gen_table(rng, d, mode):
     Z = rs.randn(n, d) @ L.T
     if mode == 'indep':
         Z = rs.randn(n, d)
+    elif mode == 'zero':
+        # Kendall tau with column 0 EXACTLY 0 (concordant = discordant), so that the key of such a column
+        # in _sort_tau_by_y(0) is 0.0 and only the -10 sentinel keeps variable 0 itself last
+        kind = rng.choice(['even', 'even-rev', 'mirror', 'tiny'])
+        if kind == 'tiny':
+            Z = np.column_stack([rs.permutation(9) for _ in range(d)]) * 1.0
+        elif kind == 'mirror':      # rows (x, y..) and (-x, y..): tau(col 0, every column) = 0
+            A = Z[: n // 2]
+            B = A.copy()
+            B[:, 0] = -B[:, 0]
+            Z = np.vstack([A, B])
+        else:                       # x on a symmetric grid and the even function x**2
+            m = rng.choice([21, 40, 41, 61])
+            x = np.arange(m) - (m - 1) / 2.0
+            Z = Z[:m].copy()
+            j = rng.randrange(1, d)
+            Z[:, 0] = x
+            Z[:, j] = x ** 2
+            if kind == 'even-rev':
+                Z[:, [0, j]] = Z[:, [j, 0]]
+            Z = Z[rs.permutation(m)]
     elif mode == 'swap' and d >= 3:
         half = Z[: n // 2]
         perm = list(range(d))
@@ -342,8 +364,12 @@ def run(ctx, lean):
     for it in range(n_tables):
         d = pick_d(rng, deep)
         mode = rng.choices(MODES, MODE_W)[0]
+        if it < 8:                      # every run: exact-zero taus with column 0, d = 2..5
+            d, mode = 2 + it % 4, 'zero'
         X = gen_table(rng, d, mode)
         tau0 = X.corr(method='kendall').to_numpy()
+        if any(tau0[0, j] == 0.0 for j in range(1, d)):
+            ctx.count('table with tau(col 0, col j) == 0 exactly')
         off = sorted(abs(tau0[i, j]) for i in range(d) for j in range(i))
         tied = any(a == b for a, b in zip(off, off[1:]))
         for vt in TYPES:
@@ -737,10 +763,12 @@ def check_real(ctx, X, vt, t, counts):
 def search(ctx, deep):
     rng = ctx.rng('search')
     counts = {'fits': 0, 'checked': 0, 'refused': 0, 'failures': 0}
-    n_tables = 150 if deep else 10
-    for _ in range(n_tables):
+    n_tables = 150 if deep else 12
+    for it in range(n_tables):
         d = pick_d(rng, deep)
         mode = rng.choices(MODES, MODE_W)[0]
+        if it < (16 if deep else 4):    # exact-zero taus with column 0 first, d = 2..5
+            d, mode = 2 + it % 4, 'zero'
         X = gen_table(rng, d, mode)
         for vt in TYPES:
             for t in ([rng.randint(1, d)] if not deep else sorted({1, rng.randint(1, d), d - 1 if d > 2 else 1, d})):
